@@ -3,6 +3,7 @@ package keeper
 import (
 	"context"
 	"fmt"
+	"math/big"
 	"strconv"
 
 	ctypes "github.com/settlus/chain/types"
@@ -278,9 +279,11 @@ func (k msgServer) DepositToTreasury(goCtx context.Context, msg *types.MsgDeposi
 		return nil, fmt.Errorf("failed to send coins to treasury account: %w", err)
 	}
 
+	// Int64() panics above MaxInt64; the gauge is only a metric
+	amountGauge, _ := new(big.Float).SetInt(msg.Amount.Amount.BigInt()).Float32()
 	defer telemetry.SetGaugeWithLabels(
 		[]string{types.ModuleName, "deposit_to_treasury"},
-		float32(msg.Amount.Amount.Int64()),
+		amountGauge,
 		[]metrics.Label{
 			telemetry.NewLabel("tenant_id", strconv.Itoa(int(msg.TenantId))),
 			telemetry.NewLabel("denom", msg.Amount.Denom),
